@@ -145,4 +145,25 @@ Section Steps.
     step {| frames := mkf prog' pc' fl' r' :: f2 :: rest2; out := o; stk := k; reqs := rqs |} =
     Running {| frames := f2 :: rest2; out := o; stk := k; reqs := rqs |}.
   Proof. intros. unfold VM.step, mkf. cbn [frames fprog fpc]. rewrite H. reflexivity. Qed.
+
+  Lemma step_quote : forall pc r o k t v, nth_error prog pc = Some OP_quote -> leaf e (rp r) = Some (t, VStr v) ->
+    step (mks prog pc fl r rest o k rqs) = Running (mks prog (S pc) fl r rest (p_quote P v true :: o) k rqs).
+  Proof. intros pc r o k t v H Hl. one H. rewrite Hl. reflexivity. Qed.
+
+  Lemma step_is_nil_p1 : forall pc r o k l t v z, nth_error prog pc = Some (OP_is_nil_p1 l) ->
+    leaf e (rp r) = Some (t, v) -> word1_zero v = Some z ->
+    step (mks prog pc fl r rest o k rqs) = Running (mks prog (if z then l else S pc) fl r rest o k rqs).
+  Proof. intros pc r o k l t v z H Hl Hz. one H. rewrite Hl, Hz. destruct z; reflexivity. Qed.
+
+  (* the four width-specific zero tests *)
+  Definition zero_op (n : N) (l : nat) : instr :=
+    if (n =? 1)%N then OP_is_zero_1 l else if (n =? 2)%N then OP_is_zero_2 l else if (n =? 4)%N then OP_is_zero_4 l else OP_is_zero_8 l.
+
+  Lemma step_is_zero_n : forall n pc r o k l t v z, nth_error prog pc = Some (zero_op n l) ->
+    (n = 1 \/ n = 2 \/ n = 4 \/ n = 8)%N ->
+    leaf e (rp r) = Some (t, v) -> low_zero n v = Some z ->
+    step (mks prog pc fl r rest o k rqs) = Running (mks prog (if z then l else S pc) fl r rest o k rqs).
+  Proof.
+    intros n pc r o k l t v z H Hn Hl Hz. destruct Hn as [Hn|[Hn|[Hn|Hn]]]; subst n; cbn in H; one H; rewrite Hl, Hz; destruct z; reflexivity.
+  Qed.
 End Steps.
